@@ -210,7 +210,7 @@ func TestC06(t *testing.T) {
 		ID:   "C06",
 		Rule: "grammars from the C01/C04 generators (family seeds, random, 30% with precedence), rules carrying Action/Type/Flags from pools of 3 values, 1/3 extended with a renamed copy of all rules (so mergeable states exist), up to 4 distinct inputs (eoi and no-eoi); %expect set to the reported conflict counts; compiled with MinimizeDFA off and on. For each input both tables are run from state=input index to FinalStates[input] on all short strings (<=400), 24 random sentences, near-misses and random strings; the traces (shift terminal/position, reduce class = lhs,length,action,type,flags, accept/error position, termination) must be equal. Non-trivial: NumStates decreased and a run visited a minimized state that stands for two different unminimized states; distinct by grammar JSON.",
 		Assume: []string{"runtime-lookahead (synthetic) inputs are covered through C08's generator, not here"},
-		Quick: 3000, Thorough: 60000,
+		Quick: 9000, Thorough: 90000,
 		Gen:   c06Gen,
 		Check: c06Check,
 	}
